@@ -153,16 +153,20 @@ fn parse_source_square(game: &Game, src: &str, dst: Square) -> Result<Square, Pa
         return Ok(*matching_source_squares.first().unwrap());
     }
 
+    // No piece letter: a pawn capture such as 'exd5'. Only pawn moves can match, and the four
+    // promotions of one pawn share a source square.
     let ambiguity_resolution = parse_ambiguity_resolution(&src_chars)?;
 
-    let matching_source_squares: Vec<Square> = piece_moves
+    let matching_source_squares: HashSet<Square> = piece_moves
         .into_iter()
-        .filter(|&(_, mv)| mv.dst() == dst && ambiguity_resolution.satisfied_by(mv))
+        .filter(|&(piece, mv)| {
+            piece == PieceKind::Pawn && mv.dst() == dst && ambiguity_resolution.satisfied_by(mv)
+        })
         .map(|(_, mv)| mv.src())
         .collect();
 
     assert_eq!(matching_source_squares.len(), 1);
-    Ok(*matching_source_squares.first().unwrap())
+    Ok(*matching_source_squares.iter().next().unwrap())
 }
 
 fn parse_destination_square(sq: &str) -> Result<Square, ParseError> {
